@@ -84,3 +84,24 @@ Proof.
   replace (2 * (- - dt / 4)) with (- (2 * (- dt / 4))) by field.
   rewrite !sin_neg, !tan_neg. reflexivity.
 Qed.
+
+(* ------------------------------------------------------------------ drift/kick schemes (over the Coq reals) *)
+From RV Require Import C04.Model C04.Proofs C10.DKRev.
+
+(* the abstract palindrome theorem with the library's concrete drift and kick (C04's transcription of
+   integrator_leapfrog.c and of the pair-force accumulation): a palindromic word of drifts and kicks, run n times
+   and then n times with every coefficient negated (dt -> -dt), returns to the initial state, for any pair force
+   that depends on masses and positions only; leapfrog as implemented is such a word *)
+Theorem C10_drift_kick_palindromes_reversible :
+  forall (F : force_law), (forall ps ps', map mpos ps = map mpos ps' -> F ps = F ps') ->
+  forall n w, rev w = w -> forall s, iterw F n (map neg_dk w) (iterw F n w s) = s.
+Proof. intros F HF n w Hp s. exact (dk_palindrome_reversible_n F HF n w Hp s). Qed.
+Print Assumptions C10_drift_kick_palindromes_reversible.
+
+Theorem C10_leapfrog_reversible :
+  forall (F : force_law), (forall ps ps', map mpos ps = map mpos ps' -> F ps = F ps') ->
+  forall dt s,
+  run_dk F [D (half RNum * - dt); K (- dt); D (half RNum * - dt)]
+    (run_dk F [D (half RNum * dt); K dt; D (half RNum * dt)] s) = s.
+Proof. intros F HF dt s. exact (leapfrog_reversible F HF dt s). Qed.
+Print Assumptions C10_leapfrog_reversible.
